@@ -79,7 +79,7 @@ func main() {
 			"read_inner_offset_zstd":                        400,
 			"read_out_of_range":                             100,
 			"read_faulty":                                   60,
-			"read_exhaustive_reads":                         4000,
+			"read_exhaustive_reads":                         3000,
 			"batch_update_mixed":                            100,
 			"batch_read_mixed":                              35,
 			"batch_read_oversize":                           50,
